@@ -54,11 +54,12 @@ def make_cfg(over):
     return path, c
 
 
-def emitted(out):
-    """The JSON predictions TLC printed (one TLA+ string per distinct state)."""
-    res, seen = [], set()
+def emitted(out, distinct):
+    """The JSON predictions TLC printed (one TLA+ string per distinct state with a non-empty list)."""
+    res, seen, n = [], set(), 0
     for line in out.splitlines():
         if line.startswith('"{') and line.endswith('}"'):
+            n += 1
             try:
                 p = json.loads(line[1:-1].replace('\\"', '"').replace("\\\\", "\\"))
             except ValueError:
@@ -67,6 +68,8 @@ def emitted(out):
             if key not in seen:
                 seen.add(key)
                 res.append(p)
+    if n != distinct - 1:
+        raise MachineryFailure("TLC found %d distinct states but %d prediction lines were read" % (distinct, n))
     return res
 
 
@@ -74,7 +77,7 @@ def tlc_universe(name, over, workers):
     cfg, consts = make_cfg(over)
     r = run_tlc("MC_Helpers", cfg, workers=workers, timeout=1500, env={"JAVA_TOOL_OPTIONS": JAVA_STACK})
     require_ok(r, "MC_Helpers " + name)
-    return name, consts, r, ([] if r.violated else emitted(r.out))
+    return name, consts, r, ([] if r.violated or over.get("Emit") == "FALSE" else emitted(r.out, r.distinct))
 
 
 def _subprocess(mode, payload):
@@ -119,7 +122,7 @@ def compare(pred, obs):
         if err:
             continue                                    # documented ValueError: nothing more is required
         if o["err"]:
-            return "of_type:raised_for_finished_actions", ty
+            return "of_type:raised_for_finished_actions(%s)" % o.get("exc", ""), ty
         if len(o["acts"]) != len(acts):
             return "of_type:number_of_entries", ty
         if [a["s"] for a in o["acts"]] != [a["s"] for a in acts]:
@@ -343,7 +346,7 @@ def run(prop, tier):
                        "when of_type's documented ValueError is predicted (an action of the type, or one below it, has no end "
                        "message in the list) nothing further is required of of_type/assertHasAction for that type"]
     rep.cov["python_oracle_clauses"] = ["descendants() yields the very nodes of the returned tree (object equality with a pre-order walk)",
-                                        "start_message/end_message aliases are the same objects as startMessage/endMessage",
+                                        "start_message/end_message aliases equal startMessage/endMessage",
                                         "ActionType/MessageType objects select the same entries as their names"]
     try:
         # ---- TLC: the universe, the invariants, the predictions
